@@ -202,7 +202,7 @@ theorem guarded_sound (c : Cfg) : ∀ (p : List Stmt) (f : Facts) (d : D) (k : N
       split at hbody
       · next f1 h1 =>
         obtain ⟨d1, hr, ag1⟩ := actsFacts_sound h1 ag
-        simp only [hr]
+        simp only [hr, failExit]
         exact exitOk_sound hbody ag1
       · simp at hbody
     · simp only [run, hn]
@@ -241,5 +241,125 @@ theorem guarded_xmacro (g : Group) (fail : List Act) (tail : List Stmt) :
       simp [h1, exitOk, h2]
     · exact guarded_xmacro g fail tail rest (i + 1) _ (fun f' h' => hf f' (by simpa using h'))
         (fun f' h' => ht f' (by simpa using h'))
+
+/-! ### execution of the X-macro allocation loops -/
+
+/-- every field other than `a` (except `pstack`) and `env` coincides. -/
+structure SameScalars (d d' : D) : Prop where
+  ncon : d'.ncon = d.ncon
+  nefc : d'.nefc = d.nefc
+  nisland : d'.nisland = d.nisland
+  nidof : d'.nidof = d.nidof
+  nJ : d'.nJ = d.nJ
+  nY : d'.nY = d.nY
+  nA : d'.nA = d.nA
+  wCon : d'.wCon = d.wCon
+  wCnstr : d'.wCnstr = d.wCnstr
+  parenaOld : d'.parenaOld = d.parenaOld
+  depth : d'.depth = d.depth
+  pstack : d'.a.pstack = d.a.pstack
+
+theorem SameScalars.refl (d : D) : SameScalars d d := ⟨rfl, rfl, rfl, rfl, rfl, rfl, rfl, rfl, rfl, rfl, rfl, rfl⟩
+
+theorem SameScalars.trans {d d1 d2 : D} (h1 : SameScalars d d1) (h2 : SameScalars d1 d2) : SameScalars d d2 :=
+  ⟨h2.ncon.trans h1.ncon, h2.nefc.trans h1.nefc, h2.nisland.trans h1.nisland, h2.nidof.trans h1.nidof,
+   h2.nJ.trans h1.nJ, h2.nY.trans h1.nY, h2.nA.trans h1.nA, h2.wCon.trans h1.wCon, h2.wCnstr.trans h1.wCnstr,
+   h2.parenaOld.trans h1.parenaOld, h2.depth.trans h1.depth, h2.pstack.trans h1.pstack⟩
+
+/-- `d'` is `d` after successful allocations into fields `k ≥ lo` of group `g`: new bindings, all
+    non-NULL, are prepended; `parena` moved; nothing else changed. -/
+structure Grown (g : Group) (lo : Nat) (d d' : D) : Prop where
+  same : SameScalars d d'
+  env : ∃ bs : List (Var × Val), d'.env = bs ++ d.env ∧
+          ∀ b ∈ bs, (∃ k, lo ≤ k ∧ b.1 = Var.fld g k) ∧ ∃ p, b.2 = some p
+
+theorem Grown.refl (g : Group) (lo : Nat) (d : D) : Grown g lo d d :=
+  ⟨SameScalars.refl d, [], rfl, by simp⟩
+
+/-- a variable that is not a field `k ≥ lo` of group `g` is not touched. -/
+theorem Grown.lookup_other {g : Group} {lo : Nat} {d d' : D} (h : Grown g lo d d') (v : Var)
+    (hv : ∀ k, lo ≤ k → v ≠ Var.fld g k) : lookup d'.env v = lookup d.env v := by
+  obtain ⟨bs, he, hb⟩ := h.env
+  rw [he]
+  apply lookup_append_of_keys
+  intro b hbm
+  obtain ⟨⟨k, hk, hk2⟩, _⟩ := hb b hbm
+  rw [hk2]
+  exact fun e => hv k hk e.symm
+
+/-- the state in which the failure block of entry `i + j` runs. -/
+def failState (g : Group) (d1 : D) (k : Nat) : D := { d1 with env := (Var.fld g k, none) :: d1.env }
+
+/-- **Execution of an X-macro allocation loop** over the request list `reqs` (entries `i, i+1, …` of
+    group `g`): either every allocation succeeded, control reaches `tail` and every field of the loop
+    holds a pointer; or the first refused allocation `i + j` bound its field to NULL, left the arena
+    untouched, and the function returned 0 after running the failure block – no field is dereferenced
+    and no later request is made. -/
+theorem run_xmacro (c : Cfg) (g : Group) (fail : List Act) (tail : List Stmt) :
+    ∀ (reqs : List (Nat × Nat)) (i : Nat) (d : D),
+      (∃ d', Grown g i d d' ∧ run c (xmacro g fail i reqs ++ tail) d = run c tail d' ∧
+          ∀ j, j < reqs.length → ∃ p, lookup d'.env (Var.fld g (i + j)) = some (some p))
+      ∨ (∃ d1 j, Grown g i d d1 ∧ j < reqs.length ∧
+          run c (xmacro g fail i reqs ++ tail) d =
+            failExit (.ret 0) (failState g d1 (i + j)) (runActs (failState g d1 (i + j)) fail))
+  | [], i, d => Or.inl ⟨d, Grown.refl g i d, by simp [xmacro], by simp⟩
+  | (b, al) :: rest, i, d => by
+    simp only [xmacro, List.cons_append]
+    rcases arenaAlloc_cases c d.a b al with hn | ⟨p, s', hp, hps, _⟩
+    · -- refused: the failure block runs
+      right
+      refine ⟨d, 0, Grown.refl g i d, by simp, ?_⟩
+      simp only [run, hn, anyNull, lookup_cons_self, Nat.add_zero, failState]
+    · -- granted: continue with the next entry
+      let d1 : D := { d with a := s', env := (Var.fld g i, some p) :: d.env }
+      have hg1 : Grown g i d d1 :=
+        ⟨⟨rfl, rfl, rfl, rfl, rfl, rfl, rfl, rfl, rfl, rfl, rfl, hps⟩,
+         [(Var.fld g i, some p)], rfl, by simp⟩
+      have hstep : run c (Stmt.alloc (Var.fld g i) b al :: Stmt.ifNull [Var.fld g i] fail (Exit.ret 0) ::
+                      (xmacro g fail (i + 1) rest ++ tail)) d = run c (xmacro g fail (i + 1) rest ++ tail) d1 := by
+        simp only [run, hp, anyNull, lookup_cons_self, d1]
+      rw [hstep]
+      have compose : ∀ d', Grown g (i + 1) d1 d' → Grown g i d d' := by
+        intro d' h'
+        refine ⟨hg1.same.trans h'.same, ?_⟩
+        obtain ⟨bs, he, hb⟩ := h'.env
+        refine ⟨bs ++ [(Var.fld g i, some p)], by simp [he, d1], ?_⟩
+        intro b hbm
+        simp only [List.mem_append, List.mem_singleton] at hbm
+        rcases hbm with hbm | rfl
+        · obtain ⟨⟨k, hk, hk2⟩, hp2⟩ := hb b hbm
+          exact ⟨⟨k, by omega, hk2⟩, hp2⟩
+        · exact ⟨⟨i, Nat.le_refl i, rfl⟩, p, rfl⟩
+      rcases run_xmacro c g fail tail rest (i + 1) d1 with ⟨d', hg, hr, hnn⟩ | ⟨d2, j, hg, hj, hr⟩
+      · left
+        refine ⟨d', compose d' hg, hr, ?_⟩
+        intro j hj
+        cases j with
+        | zero =>
+          refine ⟨p, ?_⟩
+          rw [Nat.add_zero, hg.lookup_other (Var.fld g i) (fun k hk e => by injection e with _ e2; omega)]
+          exact lookup_cons_self _ _ _
+        | succ j' =>
+          obtain ⟨q, hq⟩ := hnn j' (by simpa using hj)
+          exact ⟨q, by rw [show i + (j' + 1) = i + 1 + j' by omega]; exact hq⟩
+      · right
+        refine ⟨d2, j + 1, compose d2 hg, by simpa using hj, ?_⟩
+        rw [hr, show i + (j + 1) = i + 1 + j by omega]
+
+/-- after `nullify p`, a variable selected by `p` is NULL if bound at all. -/
+theorem lookup_after_nullify (p : Var → Bool) (env : List (Var × Val)) (v : Var) (x : Val) (hv : p v = true)
+    (h : lookup (nullify p env) v = some x) : x = none := by
+  rw [lookup_nullify] at h
+  cases hl : lookup env v with
+  | none => simp [hl] at h
+  | some y => simp [hl, hv] at h; exact h.symm
+
+/-- what the model's `mj_clearEfc` leaves: every arena pointer field is NULL. -/
+theorem lookup_after_nullify_isFld (env : List (Var × Val)) (v : Var) (x : Val) (hv : v.isFld = true)
+    (h : lookup (nullify Var.isFld env) v = some x) : x = none := by
+  rw [lookup_nullify] at h
+  cases hl : lookup env v with
+  | none => simp [hl] at h
+  | some y => simp [hl, hv] at h; exact h.symm
 
 end MjProof.ArenaConsumers
